@@ -10,7 +10,8 @@ declare -A MAP=( [N01]="C12" [N02]="C04 C05 C09 C03 C01" [N03]="C01 C02 C03 C06 
                  [N17]="C10 C17 C19 C13 C02 C20 C03 C08" [N18]="C09 C16 C19 C13 C03 C12 C20 C02"
                  [N19]="C15" [N20]="C14" [N21]="C11 C13 C16 C01 C10 C20 C17" [N22]="C18 C17 C04 C07 C09 C20 C16"
                  [N23]="C01 C02 C03 C06 C08 C09 C10 C11 C12 C13 C16 C17 C19 C20 C05 C07 C14"
-                 [N24]="C08 C01 C09 C16 C20" [N25]="C02 C06 C10 C20 C01" [N26]="C03 C16 C19 C09 C13" [N27]="C09 C20 C16" )
+                 [N24]="C08 C01 C09 C16 C20" [N25]="C02 C06 C10 C20 C01" [N26]="C03 C16 C19 C09 C13" [N27]="C09 C20 C16"
+                 [N28]="C10 C17 C19 C14" [N29]="C12" [N30]="C11 C01 C16 C20" [N31]="C17 C12 C20 C10" )
 ids=("$@"); [ ${#ids[@]} -eq 0 ] && ids=($(ls neutral | grep '^N'))
 rc=0
 for id in "${ids[@]}"; do
